@@ -32,13 +32,17 @@ Two12 == << <<0, 0, 12, 12>>, <<12, 0, 24, 12>> >>
 X1(thr) == Inst(<<24, 12>>, Two12, <<0, 3>>, << Soft(<<6, 6>>), HardL(1, 0, 0), FixedR(12, 0, 24, 12) >>, thr, 1)
 X2(thr) == Inst(<<24, 12>>, Two12, <<0, 0>>, << Soft(<<18, 6>>), HardL(1, 6, 0) >>, thr, 1)
 X3(thr) == Inst(<<24, 12>>, Two12, <<0, 2>>, << HardL(0, 0, 0), FixedR(12, 0, 24, 12) >>, thr, 2)
+\* two variants of the same macro: the SAME trunk rectangle (same place, same shape), the branch on the other side; the
+\* both rigid (each module must come back congruent to ITS OWN rectangles)
+HardL2(f, x, y) == [ kind |-> "hard", flip |-> f, rects |-> << <<x, y, x + 12, y + 6>>, <<x + 6, y + 6, x + 12, y + 12>> >>, c0 |-> <<x + 7, y + 5>> ]
+X4(thr) == Inst(<<24, 12>>, Two12, <<0, 0>>, << HardL(0, 6, 0), HardL2(0, 6, 0) >>, thr, 1)
 \* solutions replayed into the real extract_solution (ratios k/4: 0.25, 0.5, 0.75 are exact in binary)
-SolQuick == { X1(3), X2(3) }
-SolThorough == { X1(3), X1(2), X2(3), X2(2), X3(3) }
+SolQuick == { X1(3), X2(3), X4(3) }
+SolThorough == { X1(3), X1(2), X2(3), X2(2), X3(3), X4(3), X4(2) }
 
 QuickInstances == { Q1(2), Q2 }
 \* thr = Den (threshold 1.0) is included on purpose: every non-empty free cell is then refined, the fixed one never
-ThoroughInstances == { Q1(2), Q1(3), Q2, T3, T4, X3(2) }
+ThoroughInstances == { Q1(2), Q1(3), Q2, T3, T4, X3(2), X4(2) }
 
 \* generation: <<die (doubled lattice units)>>, variant, area scale (quarters of a grid square), threshold %, alpha %,
 \* iteration limit, initial refinement
@@ -46,8 +50,8 @@ Gen(dies, variants, scales, thrs, alphas, iters, inits) ==
   { [ die |-> d, cells |-> <<>>, owner |-> <<>>, mods |-> <<>>, thr |-> t, maxiter |-> i,
       variant |-> v, ascale |-> s, alpha |-> a, init |-> n ] :
     d \in dies, v \in variants, s \in scales, t \in thrs, a \in alphas, i \in iters, n \in inits }
-GenQuick == Gen({ <<4, 6>>, <<4, 8>> }, { "soft", "fixed", "hard", "flip", "mixed" }, { 3, 4 }, { 60, 80, 95 }, { 0, 30, 100 },
+GenQuick == Gen({ <<4, 6>>, <<4, 8>> }, { "soft", "fixed", "hard", "flip", "mixed", "twin", "over" }, { 3, 4 }, { 60, 80, 95 }, { 0, 30, 100 },
                 { 1, 2, 3 }, { "none", "grid", "split4", "split8" })
-GenThorough == Gen({ <<4, 6>>, <<4, 8>>, <<6, 6>> }, { "soft", "fixed", "hard", "flip", "mixed" }, { 2, 3, 4 }, { 50, 60, 70, 80, 95 },
+GenThorough == Gen({ <<4, 6>>, <<4, 8>>, <<6, 6>> }, { "soft", "fixed", "hard", "flip", "mixed", "twin", "over" }, { 2, 3, 4 }, { 50, 60, 70, 80, 95 },
                    { 0, 30, 50, 100 }, { 1, 2, 3, 4 }, { "none", "grid", "split4", "split8" })
 =============================================================================
